@@ -662,13 +662,25 @@ func c01WorkerForward(c *Ctx, r *Report, rule string) {
 			continue
 		}
 		n++
+		// other names for the same slice: `y := res` (what an expanded helper's result binding leaves behind)
+		names := map[types.Object]bool{res: true}
+		ast.Inspect(fi.Decl.Body, func(y ast.Node) bool {
+			if a2, ok := y.(*ast.AssignStmt); ok && a2.Tok == token.DEFINE && len(a2.Lhs) == 1 && len(a2.Rhs) == 1 && names[identObj(info, a2.Rhs[0])] {
+				if lo := identObj(info, a2.Lhs[0]); lo != nil {
+					names[lo] = true
+				}
+			}
+			return true
+		})
 		isSend := func(x *FNode) bool {
 			if x.N == nil {
 				return false
 			}
 			for _, s := range sendSitesIn(c, info, x.N) {
-				if s.Mentions(info, res) {
-					return true
+				for o := range names {
+					if s.Mentions(info, o) {
+						return true
+					}
 				}
 			}
 			return false
@@ -732,8 +744,10 @@ func c01WorkerForward(c *Ctx, r *Report, rule string) {
 				feasible := true
 				if e.Cond != nil && e.Tag == nil && ne {
 					for _, at := range atomise(Fact{e.Cond, nil, e.Truth}) {
-						if emptinessOf(info, at.Cond, at.Truth, res) < 0 {
-							feasible = false
+						for o := range names {
+							if emptinessOf(info, at.Cond, at.Truth, o) < 0 {
+								feasible = false
+							}
 						}
 					}
 				}
@@ -1583,4 +1597,35 @@ func c11IntegerExact(c *Ctx, r *Report, rule string) {
 		r.OK(rule, stdlibPkg, "scan", "-", "scan: no integer value takes a round trip through float64 in the helper package")
 	}
 	// "for every" rule: no instance is expected; seed C11-m11 and the pre-fix expbucket are its positive examples
+}
+
+// Clauses added in round 5, appended to the explanation each evidence file carries.
+func init() {
+	extra := map[string]string{
+		"C01": " Round 5: (a') each class a path of processLineSync counts is backed by its documented decision on that path; (c') from every append of a match every path to the worker's exit sends the slice; (h') with -z every successful open passed the gzip probe; (i) the C04-a buffer discipline (lines waiting in a batch are not overwritten).",
+		"C02": " Round 5: (f') under the posix flag the regexp handed back comes from CompilePOSIX or had Longest() called.",
+		"C03": " Round 5: UseCRLF is never switched on and a method shadowing the promoted csv Write forwards its record unchanged; the C06-b error-counting rules (the exit status reads that count); the parsed increment is one field of the sample.",
+		"C05": " Round 5: a slice/map field copied into a local under the lock is not used after the unlock (nor returned) while the storage is updated in place elsewhere; a worker forwards every match it collected before it exits; typed stage closures write no captured variable.",
+		"C06": " Round 5: with -z every path to a successful return of the opener passes gzip.NewReader.",
+		"C07": " Round 5: the text parsed as increment is the splitter's next field (or a strings.Split element, or the sample itself).",
+		"C09": " Round 5: CompilerErrors.add appends on every path and inherit adds every element.",
+		"C10": " Round 5: the context touch is the wrapped context's GetMatch with the index as it came in; typed stage closures write no captured variable.",
+		"C11": " Round 5: no rune is cut down to a byte without a range fact; the binary operation of an arithmetic helper is only applied as acc = op(acc, next) inside the stage closure; no integer value takes a round trip through float64.",
+		"C12": " Round 5: an iteration of the pattern compiler that parsed a placeholder ends with an error or appends it as a token of its own.",
+		"C13": " Round 5: while Reverse negates, no function consults a comparator it received in both argument orders.",
+		"C14": " Round 5: the magnitude a renderer hands to SparkWrite / HeatWrite / BarWrite is a Scaler.Scale result, never a literal.",
+		"C16": " Round 5: the index / slice / loop obligations of pkg/minijson are discharged (E-PANIC).",
+		"C17": " Round 5: array-typed fields of a pooled context (vals) count as state: every element is assigned before each use.",
+		"C18": " Round 5: every result of {duration} is an error marker or derives from time.ParseDuration; no name in the time helpers is resolved by the first hit of a map iteration.",
+		"C19": " Round 5: a binding that does not parse stores to a field of the context wrapper and the runner chooses the error marker by that field, not by the computed value.",
+	}
+	for id, x := range extra {
+		if pd := props[id]; pd != nil {
+			if i := strings.Index(pd.Explain, "NOT decided"); i > 0 {
+				pd.Explain = pd.Explain[:i] + strings.TrimSpace(x) + " " + pd.Explain[i:]
+			} else {
+				pd.Explain += x
+			}
+		}
+	}
 }
